@@ -251,10 +251,8 @@ func bigIntrinsic(name string) intrinsic {
 				return x.c.Int64()
 			}
 			st := fr.st()
-			// low 64 bits of |x| with sign applied
-			lo := st.Int2BV(st.IAbs(x.t), 64)
-			r := st.Ite(st.ILt(x.t, st.IntC(new(big.Int))), st.Neg(lo), lo)
-			return lower(types.Typ[types.Int64], r)
+			// Go: int64(low64(|x|)), negated if x<0  ==  x mod 2^64 in two's complement
+			return lower(types.Typ[types.Int64], st.Int2BV(x.t, 64))
 		}
 	case "Uint64":
 		return func(fr *frame, a []value) value {
